@@ -582,15 +582,43 @@ func (s *sys) count(ev, obs, prev []uint64) {
 	}
 }
 
+// corpusMotifs: the corpus histories, used as PREFIXES of a share of the random histories (a random cut of a random
+// corpus history is replayed first, then generation continues at random from the situation it reached): the corner
+// cases that were worth writing down are then also explored in their neighbourhood, not only replayed verbatim.
+var corpusMotifs []hist.H
+
 func runRandom(t *testing.T, w *hist.W, h int) {
 	r := hist.Rng(h)
 	synctest.Test(t, func(t *testing.T) {
+		var prefix [][]uint64
+		if len(corpusMotifs) > 0 && r.IntN(6) == 0 {
+			m := corpusMotifs[r.IntN(len(corpusMotifs))]
+			if len(m.Evs) > 0 {
+				prefix = m.Evs[:1+r.IntN(len(m.Evs))]
+			}
+		}
 		s := newSys(w)
 		defer s.teardown()
 		w.Begin(fmt.Sprintf("r%d", h), nil)
+		var prev []uint64
+		for _, ev := range prefix {
+			ev = append([]uint64{}, ev...)
+			obs, ok := s.exec(ev)
+			if !ok {
+				break
+			}
+			s.count(ev, obs, prev)
+			prev = obs
+			w.Step(ev, obs)
+		}
+		if prefix != nil {
+			w.Count("random_with_corpus_prefix", 1)
+		}
 		steps := 10 + r.IntN(50)
 		cfg := genCfg{maxActs: 4 + r.IntN(9), disc: r.IntN(10) < 7}
-		var prev []uint64
+		if prefix != nil {
+			cfg.maxActs += len(s.las)
+		}
 		for k := 0; k < steps; k++ {
 			ev := s.gen(r, cfg)
 			if ev == nil {
@@ -604,7 +632,7 @@ func runRandom(t *testing.T, w *hist.W, h int) {
 			prev = obs
 			w.Step(ev, obs)
 		}
-		if cfg.disc {
+		if cfg.disc && prefix == nil {
 			w.Count("histories.disciplined", 1)
 		}
 		w.Count(fmt.Sprintf("len.%02d", min(steps/10, 6)*10), 1)
@@ -647,7 +675,8 @@ func TestBcast(t *testing.T) {
 		}
 		return
 	}
-	for _, h := range hist.LoadCorpus(*hist.Corpus) {
+	corpusMotifs = hist.LoadCorpus(*hist.Corpus)
+	for _, h := range corpusMotifs {
 		runFixed(t, w, h.ID, h.Evs)
 		w.Count("corpus", 1)
 	}
